@@ -39,6 +39,7 @@ RULES = {
     "D4": B.rule_D4,
     "D5": U.rule_D5,
     "W1": S.rule_W1,
+    "W2": S.rule_W2,
     "G3": R.rule_G3,
     "G4": S.rule_G4,
     "G1c": G.rule_G1c,
@@ -99,12 +100,15 @@ PROPS = {
         "escape, on every path of the literal parsers (typestate over their MIR). Radix parsing and round-trips are value-level and not decided.",
     },
     "C15": {
-        "rules": ["D2", "D3", "W1"],
-        "claim": "Decides three structural clauses of C15: (D2) every index/slice of BasicGarnishData's raw heap vector is rebased on a "
+        "rules": ["D2", "D3", "W1", "W2"],
+        "claim": "Decides four structural clauses of C15: (D2) every index/slice of BasicGarnishData's raw heap vector is rebased on a "
         "StorageBlock.start (followed through locals, parameters to their call sites, struct fields to their initialisers); (D3) the six "
         "push_to_*_block siblings and the six copy stanzas of reallocate_heap each use one block in every role and agree on the "
         "argument positions; (W1) only the enumerated store primitives obtain a mutable view of the heap or write the stack heads, and "
-        "SimpleGarnishData's value list is append-only. Correctness for every interleaving/growth policy and interning are not decided.",
+        "SimpleGarnishData's value list is append-only; (W2) every hand-written Hash impl inside the key of SimpleGarnishData's hash-keyed "
+        "constant table feeds the hasher a loss-free encoding of the whole payload (no narrowing cast, rounding, or ignored payload), "
+        "the necessary condition for 'a different constant gets a different address' since cache_add never compares the stored value. "
+        "Correctness for every interleaving/growth policy is not decided.",
     },
     "C16": {
         "rules": ["G4", "T14"],
@@ -217,7 +221,7 @@ TECHNIQUE = {
     "C07": "same call-graph reachability + MIR panic-site inventory over the runtime entry set; SCC check with a depth-bound allow-list",
     "C13": "path-partitioned abstract interpretation of the Lexer methods' MIR with a typestate on the error slot (assume-guarantee between methods); operator table extraction",
     "C14": "origin (def-use) analysis over resolved HIR: byte-length sources vs character-count sinks; cast scan of the literal parsers",
-    "C15": "origin analysis of heap index expressions (interprocedural through parameters and struct fields); sibling cross-check of the six block push functions and copy stanzas; who-may-write tables over resolved calls",
+    "C15": "origin analysis of heap index expressions (interprocedural through parameters and struct fields); sibling cross-check of the six block push functions and copy stanzas; who-may-write tables over resolved calls; lossy-encoding scan of the Hash impls inside the intern key",
     "C16": "enumeration of locally constructed error values (resolved constructors) in the list lookup functions of both data impls against a reviewed table",
     "C11": "arm-table extraction of the (type,type) equality dispatch from resolved HIR: symmetry, role signatures of mirrored arms, accessor/type agreement, negation wiring",
     "C19": "per-variant arm tables of the two compaction passes: binding-to-sink flow of reference fields compared with a reference-field spec; root trace/remap/write-back agreement; who-may-write table",
